@@ -212,7 +212,7 @@ def metadata_log_ok__samples():
     return [(0, False), (3, False), (4, True), (1, False)]
 
 
-def inv_history(sp, rig="M", L=3, first=None, ops=None):
+def inv_history(sp, rig="M", L=3, first=None, second=None, ops=None):
     with Env(sp, rig=rig, clock="tick") as e:
         ops = ops or ["append", "append2", "delete", "replace", "expire", "delsnap", "set_retention", "set_logmax", "contended_commit", "reappend"]
         h = H.History(sp, e, ops, checks=[H.check_state, H.check_invariant])
@@ -224,8 +224,13 @@ def inv_history(sp, rig="M", L=3, first=None, ops=None):
         if first is not None:
             h.ops = [first]
             h.step(0)
+            k0 = 1
+            if second is not None:
+                h.ops = [second]
+                h.step(1)
+                k0 = 2
             h.ops = ops
-            for k in range(1, L):
+            for k in range(k0, L):
                 h.step(k)
         else:
             h.run(L)
